@@ -55,6 +55,7 @@ func (db *DB) InsertRaw(stream string, ts time.Time, dims bytemap.ByteMap, vals 
 	if err != nil {
 		db.log.Error(err)
 	}
+	verifEvent("wal.ack", stream, err == nil)
 	return err
 }
 
@@ -260,6 +261,7 @@ func (t *table) doInsert(ts time.Time, dims bytemap.ByteMap, vals bytemap.ByteMa
 		inserted++
 	}
 	for _, subVals := range additionalVals {
+		verifEvent("insert.sub", t.Name)
 		t.rowStore.insert(&insert{key, encoding.NewTSParams(ts, subVals), dims, offset, source})
 	}
 	t.statsMutex.Lock()
